@@ -157,6 +157,44 @@ def isDeclaredCrossNode (key : String) : Bool :=
 def holdsDeclared (key : String) (sh : Bool) (trace : List Ev) : Bool :=
   !(isDeclaredCrossNode key && sh) || trace.all (fun e => e.tier != .cache)
 
+/-- Read-modify-write facade calls: tier read, then tier write(s) derived from what was read. -/
+def isRMW : Op → Bool
+  | .app _ | .rem _ | .exp _ => true
+  | _ => false
+
+/-- Calls whose tier writes happen under the per-key lock (Incr, SetNX and the hash methods are single
+atomic tier calls outside it). -/
+def isGuardedOp : Op → Bool
+  | .set _ _ | .del | .app _ | .rem _ | .exp _ | .get | .getl => true
+  | _ => false
+
+def isWriteAct : Act → Bool
+  | .set _ _ | .del => true
+  | _ => false
+
+/-- Positions of the first and the last tier call of thread `tid` in the trace. -/
+def spanOf (tid : Nat) (tr : List Ev) : Option (Nat × Nat) :=
+  match (tr.zipIdx.filter (fun p => p.1.tid == tid)).map (·.2) with
+  | [] => none
+  | a :: rest => some (a, (a :: rest).getLast (by simp))
+
+/-- **Read-modify-write calls are exclusive**: between the tier read and the last tier write of an
+AppendToList / RemoveFromList / SetExpiration, no other call (of the same node) whose writes are guarded by
+the key lock performs a successful tier write of the key — otherwise that completed Set/SetList/Delete is
+overwritten with data derived from the older value (a deleted list comes back, a completed SetList is lost,
+`Set(v2)` returned and `v1` is served). -/
+def holdsExclusive (ths : List ThObs) (tr : List Ev) : Bool :=
+  ths.zipIdx.all (fun t =>
+    !isRMW t.1.op ||
+    match spanOf t.2 tr with
+    | none => true
+    | some (a, b) =>
+      tr.zipIdx.all (fun e =>
+        !(decide (a < e.2) && decide (e.2 < b) && e.1.tid != t.2 && isWriteAct e.1.act && e.1.out == .ok &&
+          (match ths[e.1.tid]? with
+           | some u => isGuardedOp u.op
+           | none => false))))
+
 /-- What `holds` needs to know about the case besides the route. -/
 structure CaseInfo where
   key : String
@@ -177,5 +215,10 @@ def holds (R : Route) (K : CaseInfo) (c s p : Option Val) (o : Obs) : Bool :=
     (holdsFresh (initVal R c s p) o.ths o.fget && holdsList (initVal R c s p) o.ths o.fget &&
      (!K.twoNode ||
        (holdsFresh (initVal R c s p) o.ths o.fget1 && holdsList (initVal R c s p) o.ths o.fget1))))
+
+/-- The predicate the runner applies: `holds`, and for one-node cases the exclusiveness of the
+read-modify-write calls. -/
+def holdsAll (R : Route) (K : CaseInfo) (c s p : Option Val) (o : Obs) : Bool :=
+  holds R K c s p o && (K.twoNode || holdsExclusive o.ths o.trace)
 
 end Tunnox.C14
